@@ -211,6 +211,8 @@ pub enum Op {
     AppAckBig { nth: u8 },
     /// ... or with the success-class reason code 0x10 "No matching subscribers" (PUBACK / PUBREC, v5.0)
     AppAckSoft { nth: u8 },
+    /// like PeerAfterClose, with a QoS 1 / 2 PUBLISH that crossed the close request on the wire
+    PeerPubAfterClose { qos: u8, id: u32 },
     Advance { ms: u64 },
     /// the transport is lost; `partial` > 0: the peer's next frame is cut after that many bytes first
     Close { partial: u16 },
@@ -1094,6 +1096,25 @@ impl Solo {
                 }
                 self.peer_send(&p);
             }
+            Op::PeerPubAfterClose { qos, id } => {
+                if !self.w.want_close {
+                    return;
+                }
+                self.w.set_lenient();
+                let keep = self.w.read_past_close;
+                self.w.read_past_close = true;
+                let mut p = Pkt::new(v, PUBLISH).with_id(*id);
+                p.qos = *qos;
+                p.topic = TOPICS[0].into();
+                p.payload = b"late".to_vec();
+                self.fault("frame_after_close_request");
+                let bytes = wire::encode(&p, self.w.idw);
+                let lists = self.w.feed(&bytes);
+                self.w.read_past_close = keep;
+                for l in lists {
+                    self.handle(&l);
+                }
+            }
             Op::PeerAfterClose { kind } => {
                 if !self.w.want_close || self.w.m.st == St::Disc && self.w.rx_pending() == 0 && false {
                     return;
@@ -1387,6 +1408,9 @@ pub fn gen_op(s: &Solo, r: &mut Rng, prof: &GenProfile) -> Op {
     let m = &s.w.m;
     if s.w.want_close {
         if r.chance(1, 8) {
+            if r.chance(1, 3) {
+                return Op::PeerPubAfterClose { qos: *r.pick(&[1u8, 2, 2]), id: r.range(1, 4) as u32 };
+            }
             return Op::PeerAfterClose { kind: *r.pick(&[PUBLISH, PINGREQ, PINGRESP, PUBACK]) };
         }
         if r.chance(4, 5) {
